@@ -49,7 +49,7 @@ Proof.
   - exact Hb.
   - cbn [app]. apply j_cons; [exact Hab|]. apply IH. exact Hb.
   - cbn [app]. apply j_ins; try assumption. apply IH.
-    cbn [mode_after] in Hb |- *. rewrite Ka in Hb. exact Hb.
+    cbn [mode_after] in Hb |- *. rewrite (swt_next_mode _ _ Ka) in Hb. exact Hb.
 Qed.
 
 Lemma js_empty_mode m l : line_is_empty l = true -> mode_after m l = m.
@@ -70,7 +70,7 @@ Proof.
     + cbn [fst snd mode_after]. split; [apply j_cons; [exact Hab | constructor] | exact Hr].
     + destruct (pull_line r1) as [x1 y1], (pull_line r2) as [x2 y2]. cbn [fst snd] in *.
       destruct IH as [Hx Hy]. cbn [mode_after]. split; [apply j_cons; assumption | exact Hy].
-  - assert (Na : tk_eqb (kind a) KNewline = false) by (apply (js_kind_not_nl _ _ Ka); discriminate).
+  - assert (Na : tk_eqb (kind a) KNewline = false) by (exact (swt_not_nl _ Ka)).
     assert (Nb : tk_eqb (kind b) KNewline = false) by (rewrite <- (krel_kind _ _ Hab); exact Na).
     assert (Nw : tk_eqb (kind w) KNewline = false) by (apply (js_kind_not_nl _ _ Kw); discriminate).
     assert (Nc : tk_eqb (kind cm) KNewline = false) by (apply (js_kind_not_nl _ _ Kc); discriminate).
@@ -78,7 +78,7 @@ Proof.
     destruct (pull_line r1) as [x1 y1], (pull_line r2) as [x2 y2]. cbn [fst snd] in *.
     destruct IH as [Hx Hy]. split.
     + apply j_ins; assumption.
-    + cbn [mode_after] in Hy |- *. rewrite Ka. exact Hy.
+    + cbn [mode_after] in Hy |- *. rewrite (swt_next_mode _ _ Ka). exact Hy.
 Qed.
 
 (* ---------------------------------------------------------------- 2. the line tests *)
@@ -160,7 +160,7 @@ Proof.
     + exfalso. destruct N as [N _]. specialize (N eq_refl). discriminate.
     + exfalso. destruct N as [_ N]. specialize (N eq_refl). discriminate.
     + apply j_cons; assumption.
-  - assert (Na : tk_eqb (kind a) KNewline = false) by (apply (js_kind_not_nl _ _ Ka); discriminate).
+  - assert (Na : tk_eqb (kind a) KNewline = false) by (exact (swt_not_nl _ Ka)).
     assert (Nb : tk_eqb (kind b) KNewline = false) by (rewrite <- (krel_kind _ _ Hab); exact Na).
     assert (Nw : tk_eqb (kind w) KNewline = false) by (apply (js_kind_not_nl _ _ Kw); discriminate).
     assert (Nc : tk_eqb (kind cm) KNewline = false) by (apply (js_kind_not_nl _ _ Kc); discriminate).
